@@ -11,6 +11,7 @@ import (
 	"os"
 	"path/filepath"
 	"strings"
+	"sync"
 	"time"
 
 	"github.com/theparanoids/crypki/proto"
@@ -65,7 +66,7 @@ func main() {
 	defer os.RemoveAll(sysDir)
 	ev.Main("C18", "exploration", func(r *ev.Run) {
 		defer os.RemoveAll(sysDir)
-		r.Rule("real gRPC/TLS servers on 127.0.0.2..4 (one shared port) whose identity is one of {issued by a configured CA (first or second bundle CA), foreign CA, self-signed, expired, not yet valid, valid for another address, valid for the FIRST endpoint's address only, issued by a CA trusted only via SSL_CERT_FILE (the process system pool), DNS name only}, protocol range in {>=1.2, 1.2 only, 1.3 only, 1.0-1.1 only}, client-certificate policy in {none, request, require any, require and verify, require any with another CA advertised}; bundles of 1 or 2 files holding 1..3 CA certificates; endpoint lists of 1..3 with genuine and impostor servers at every position. Each server records its handshakes (version, peer certificates) and the RPCs it handled. Violations: an RPC handled by a non-genuine server or below TLS 1.2; the RA presenting no or another client certificate to a genuine server that asks for one; Sign failing although a genuine endpoint follows impostors; Sign succeeding with an impostor's certificates. distinct_nontrivial = distinct (bundle, endpoint list, per-server variant) configurations judged")
+		r.Rule("real gRPC/TLS servers on 127.0.0.2..4 (one shared port) whose identity is one of {issued by a configured CA (first or second bundle CA), foreign CA, self-signed, expired, not yet valid, valid for another address, valid for the FIRST endpoint's address only, issued by a CA trusted only via SSL_CERT_FILE (the process system pool), DNS name only}, protocol range in {>=1.2, 1.2 only, 1.3 only, 1.0-1.1 only}, client-certificate policy in {none, request, require any, require and verify, require any with another CA advertised}; bundles of 1 or 2 files holding 1..3 CA certificates; endpoint lists of 1..3 with genuine and impostor servers at every position. Each server records its handshakes (version, peer certificates) and the RPCs it handled. Beside that, one long-lived signer whose client certificate lapses 2..3 s after construction signs before and after the lapse against a genuine server that requests a client certificate. Violations: an RPC handled by a non-genuine server or below TLS 1.2; the RA presenting no or another client certificate to a genuine server that asks for one; Sign failing although a genuine endpoint follows impostors; Sign succeeding with an impostor's certificates. distinct_nontrivial = distinct (bundle, endpoint list, per-server variant) configurations judged")
 		r.Assume("no DNS in the sandbox: endpoint names are IP addresses, matched against IP SANs", "chain validity uses the real clock; margins of 24 h and of one minute", "Retries: 1")
 		gen.Pool()
 		dir, err := os.MkdirTemp("", "tls")
@@ -92,6 +93,12 @@ func main() {
 		crl := pem.EncodeToMemory(&pem.Block{Type: "X509 CRL", Bytes: []byte{0x30, 0x03, 0x02, 0x01, 0x01}})
 		ecp := pem.EncodeToMemory(&pem.Block{Type: "EC PARAMETERS", Bytes: []byte{0x06, 0x08, 0x2a, 0x86, 0x48, 0xce, 0x3d, 0x03, 0x01, 0x07}})
 		bundles["one-file-mixed-blocks"] = []string{write("b5.pem", []byte("# CA bundle of the signing service\n# Subject: CN=verif CA 3"), ca3.PEM, crl, []byte("Subject: CN=verif CA 1\nIssuer: self"), ca1.PEM, ecp, crl, ca2.PEM, []byte("# end"))}
+		// beside everything else (it has to wait for a certificate to lapse): a long-lived signer whose client
+		// certificate expires while it is in use still presents the configured certificate
+		var lwg sync.WaitGroup
+		lwg.Add(1)
+		go func() { defer lwg.Done(); lapsingClientCert(r, dir, ca1) }()
+		defer lwg.Wait()
 		client := ca1.Issue(caserver.Leaf{CN: "ra-client", Client: true})
 		clientCert, clientKey := caserver.WritePEM(dir, "client", client)
 		ips := []string{"127.0.0.2", "127.0.0.3", "127.0.0.4"}
@@ -170,6 +177,74 @@ func main() {
 			})
 		}
 		r.Floor(int64(r.Pick(600, 6000)), int64(r.Pick(400, 4000)))
+	})
+}
+
+// lapsingClientCert: the client certificate is valid when the signer is built and lapses 2..3 s later. A genuine
+// server that requests (but does not verify) a client certificate must see the configured certificate before and after.
+func lapsingClientCert(r *ev.Run, dir string, ca *caserver.CA) {
+	c := r.Case("lapsing-client-cert", 0)
+	if c == nil {
+		return
+	}
+	start := time.Now()
+	lapse := start.Add(3 * time.Second)
+	cl := ca.Issue(caserver.Leaf{CN: "ra-client-short-lived", Client: true, NotBefore: start.Add(-time.Hour), NotAfter: lapse})
+	sub := filepath.Join(dir, "lapsing")
+	os.Mkdir(sub, 0o700)
+	certPath, keyPath := caserver.WritePEM(sub, "client", cl)
+	caPath := filepath.Join(sub, "ca.pem")
+	os.WriteFile(caPath, ca.PEM, 0o600)
+	ip := "127.0.1.77"
+	conf := &tls.Config{Certificates: []tls.Certificate{ca.Issue(caserver.Leaf{CN: "crypki", IPs: []string{ip}})}, MinVersion: tls.VersionTLS12, ClientAuth: tls.RequestClientCert}
+	servers, port, err := caserver.StartGroup([]string{ip}, []*tls.Config{conf})
+	if err != nil {
+		r.Count("lapsing client certificate: cannot start server (skipped)", 1)
+		return
+	}
+	defer servers[0].Stop()
+	now64 := uint64(start.Unix())
+	text := string(ssh.MarshalAuthorizedKey(gen.MakeCert(gen.CertSpec{Key: gen.Pool()[0], KeyID: "lapsing", ValidAfter: now64 - 10, ValidBefore: now64 + 100})))
+	rec := map[string]any{"client_certificate_not_after": lapse.Format(time.RFC3339)}
+	r.Eval(1)
+	r.Guard(c, "lapsing client certificate", rec, func() {
+		signer, err := crypki.NewSigner(crypki.SignerConfig{TLSClientKeyFile: keyPath, TLSClientCertFile: certPath, TLSCACertFiles: []string{caPath}, CrypkiEndpoints: []string{ip}, CrypkiPort: uint(port), Retries: 1, PerTryTimeout: 10 * time.Second})
+		if err != nil {
+			r.Violation(c, "signer-construction-fails", err.Error(), rec)
+			return
+		}
+		look := func(when string) bool {
+			servers[0].Set(func(context.Context, *proto.SSHCertificateSigningRequest) (*proto.SSHKey, error) {
+				return &proto.SSHKey{Key: text}, nil
+			})
+			ctx, cancel := context.WithTimeout(context.Background(), 60*time.Second)
+			defer cancel()
+			_, _, serr := signer.Sign(ctx, &proto.SSHCertificateSigningRequest{KeyMeta: &proto.KeyMeta{Identifier: "x"}, Principals: []string{"a"}, PublicKey: "k", Validity: 60})
+			hs := servers[0].Handshakes()
+			if len(hs) == 0 {
+				r.Count("lapsing client certificate: no handshake observed "+when+" (not judged)", 1)
+				return false
+			}
+			for _, h := range hs {
+				if len(h.PeerCerts) == 0 || !bytes.Equal(h.PeerCerts[0], cl.Certificate[0]) {
+					r.Violation(c, "configured-client-certificate-not-presented:"+when+"-it-lapsed", fmt.Sprintf("the server requested a client certificate and saw %d peer certificates (Sign err=%v) at %s; the configured certificate is valid until %s", len(h.PeerCerts), serr, time.Now().Format(time.RFC3339), lapse.Format(time.RFC3339)), rec)
+					return false
+				}
+			}
+			r.Count("handshakes carrying the configured client certificate "+when+" it lapsed", len(hs))
+			return true
+		}
+		if time.Since(start) < time.Second {
+			if !look("before") {
+				return
+			}
+		}
+		if d := time.Until(lapse.Add(1200 * time.Millisecond)); d > 0 {
+			time.Sleep(d)
+		}
+		if look("after") {
+			r.Nontrivial("lapsing-client-cert")
+		}
 	})
 }
 
